@@ -83,6 +83,7 @@ def run(ck):
             from rules import C01
             C01.r5(ck, F, rid="C19.R4")
             C01.rebuild_unconditional(ck, rid="C19.R4")      # ... and publishes what it computed on every path, std and no_std
+            C01.r6(ck, F, rid="C19.R4")                      # ... for every Dispatch there is
 
 
 # ------------------------------------------------------------------ R1
